@@ -603,7 +603,8 @@ impl SparqlDatabase {
                 if i == 0 {
                     output.push(' ');
                 } else {
-                    output.push_str(" ;\n    ");
+                    // parse_turtle reads one statement per line
+                    output.push_str(" ; ");
                 }
                 output.push_str(&format!("<{}>", predicate));
 
